@@ -192,6 +192,9 @@ fn coded_sound(sid: usize, n: usize, start: usize, st: StartTime) -> StaticSound
 #[derive(Clone, Copy, Debug)]
 struct ClockMirror {
 	dropped: bool,
+	/// the audio thread has picked the clock up from the new-resource queue (a clock dropped before that is
+	/// still inserted by the next callback, and removed by the one after: C08's "the one after" clause)
+	in_arena: bool,
 	present: bool,
 	want_ticking: bool,
 	ticking: bool,
@@ -241,7 +244,7 @@ fn run_scenario(sc: &Scenario) -> Trace {
 		let listener = m.add_listener(glam::Vec3::ZERO, glam::Quat::IDENTITY).unwrap();
 		let mut clocks: Vec<Option<ClockHandle>> = (0..2).map(|_| Some(m.add_clock(ClockSpeed::TicksPerSecond(64.0)).unwrap())).collect();
 		let ids: Vec<_> = clocks.iter().map(|c| c.as_ref().unwrap().id()).collect();
-		let mut cm = [ClockMirror { dropped: false, present: false, want_ticking: false, ticking: false, started: false, sixteenths: 0 }; 2];
+		let mut cm = [ClockMirror { dropped: false, in_arena: false, present: false, want_ticking: false, ticking: false, started: false, sixteenths: 0 }; 2];
 		let mut tracks: BTreeMap<usize, H> = BTreeMap::new();
 		let mut sounds: BTreeMap<usize, StaticSoundHandle> = BTreeMap::new();
 		let mk_tw = |ids: &[kira::clock::ClockId], t: &Tw| Tween { start_time: mk_start(&[], ids, &t.start), duration: Duration::from_nanos(t.dur_ns), easing: t.easing };
@@ -316,7 +319,9 @@ fn run_scenario(sc: &Scenario) -> Trace {
 			// Renderer::on_start_processing: clocks marked for removal go, new ones arrive, set_ticking is read
 			m.backend_mut().r().on_start_processing();
 			for c in 0..2 {
-				cm[c].present = !cm[c].dropped;
+				// remove_unused scans the arena first, then the queued clocks are inserted
+				cm[c].present = if cm[c].in_arena { cm[c].present && !cm[c].dropped } else { true };
+				cm[c].in_arena = true;
 				cm[c].ticking = cm[c].want_ticking;
 				// the shared time was just refreshed from the clock's state: compare with the mirror
 				if let Some(h) = &clocks[c] {
